@@ -170,6 +170,9 @@ def run(ctx):
     res.append(r)
     res.append(rule_footer(facts))
     res.append(rule_utf8(facts))
+    from . import c19b
+    res.extend([c19b.rule_sign(facts, cg), c19b.rule_copylen(facts, cg), c19b.rule_slice(facts, cg), c19b.rule_panic(facts, cg),
+                c19b.rule_bounds(facts, cg), c19b.rule_listsz(facts, cg)])
     return res
 
 
